@@ -51,7 +51,6 @@ SUBST = ['A', 'B', 'C', 'D']
 _CLS = {'UnitLength': L, 'UnitMass': M, 'UnitTime': T, 'UnitCurrent': I, 'UnitTemperature': TH,
         'UnitLuminousIntensity': J, 'UnitSubstance': N}
 RTOL = 1e-10
-VALIDATE_ALIAS_KEY = 'validate:aliases-zero-order-constant'
 
 
 def _dadd(a, b, k=1):
@@ -151,6 +150,28 @@ def _read(q):
     for unit, e in s.dimensionality.items():
         d[_CLS[type(unit).__name__]] += int(e)
     return float(s.magnitude), tuple(d)
+
+
+class InputMutated(AssertionError):
+    """the real code changed an object the caller passed in"""
+
+
+def _snap(obj):
+    """a value snapshot of (containers of) numbers / quantities: magnitudes and unit text"""
+    if isinstance(obj, dict):
+        return tuple((k, _snap(v)) for k, v in obj.items())
+    if isinstance(obj, (list, tuple)):
+        return tuple(_snap(v) for v in obj)
+    if hasattr(obj, 'dimensionality'):
+        import numpy as np
+        return (tuple(np.ravel(np.asarray(obj.magnitude, dtype=float)).tolist()), str(obj.dimensionality))
+    return ('plain', repr(obj))
+
+
+def _unchanged(what, before, obj):
+    after = _snap(obj)
+    if after != before:
+        raise InputMutated('%s modified its input: before %r, after %r' % (what, before, after))
 
 
 def _close(a, b, scale=None, rtol=RTOL):
@@ -521,8 +542,12 @@ class C10(Property):
         odesys, extra = get_odesys(rsys, include_params=not named, unit_registry=_real_reg(conf['reg']))
         c0 = {s: _real(conf['c0'][s]) for s in c['subst']}
         p = {('k%d' % i): _real(k) for i, k in enumerate(conf['ks'])} if named else ()
-        x, y, pp = odesys.to_arrays(_real(conf['t']), c0, p)
+        t = _real(conf['t'])
+        before = _snap([t, c0, p])
+        x, y, pp = odesys.to_arrays(t, c0, p)
         f = odesys.f_cb(x[-1], y, pp)
+        odesys.post_process(x, y, pp)
+        _unchanged('get_odesys(...).to_arrays / f_cb / post_process', before, [t, c0, p])
         return [float(v) for v in f.ravel()[:len(c['subst'])]], extra
 
     def impl(self, mc):
@@ -558,9 +583,11 @@ class C10(Property):
                 if k == 'dedim_tcp':
                     from chempy.kinetics.ode import _mk_dedim
                     a = c['A']
-                    (t, cc, p), ex = _mk_dedim(_real_reg(a['reg']))['dedim_tcp'](
-                        _real(a['t']), {s: _real(a['c0'][s]) for s in c['subst']},
-                        {('k%d' % i): _real(q) for i, q in enumerate(a['ks'])})
+                    ins = [_real(a['t']), {s: _real(a['c0'][s]) for s in c['subst']},
+                           {('k%d' % i): _real(q) for i, q in enumerate(a['ks'])}]
+                    before = _snap(ins)
+                    (t, cc, p), ex = _mk_dedim(_real_reg(a['reg']))['dedim_tcp'](*ins)
+                    _unchanged('dedim_tcp', before, ins)
                     return json.dumps({'t': float(t), 'c': [float(cc[s]) for s in c['subst']],
                                        'p': [[list(_read(ex['param_units']['k%d' % i])), float(p['k%d' % i])] for i in range(len(a['ks']))]})
                 if k == 'derived_fallback':
@@ -594,10 +621,13 @@ class C10(Property):
         odesys, extra = get_odesys(rsys, include_params=False, unit_registry=_real_reg(a['reg']),
                                    output_time_unit=unit(c['out_t']), output_conc_unit=unit(c['out_c']))
         cbs = odesys.to_arrays_callbacks
-        x = cbs[0]([_real(q) for q in c['x']])
-        y = cbs[1]([_real(a['c0'][s]) for s in c['subst']])
-        p = cbs[2]([_real(q) for q in a['ks']])
+        ins = [[_real(q) for q in c['x']], [_real(a['c0'][s]) for s in c['subst']], [_real(q) for q in a['ks']]]
+        before = _snap(ins)
+        x = cbs[0](ins[0])
+        y = cbs[1](ins[1])
+        p = cbs[2](ins[2])
         t, cc, pp = odesys.post_processors[-1](np.asarray(x), np.asarray(y), np.asarray(p))
+        _unchanged('to_arrays callbacks / post_processor', before, ins)
         rd = lambda arr: [[float(getattr(e, 'magnitude', e))] + list(_read(e)) for e in arr]
         return {'x': [float(v) for v in x], 'y': [float(v) for v in y], 'p': [float(v) for v in p],
                 'time': rd(t), 'conc': rd(cc), 'params': rd(pp), 'p_units': [list(_read(u)) for u in extra['p_units']]}
@@ -914,6 +944,7 @@ class C10(Property):
         cond = {s: _real(a['c0'][s]) for s in c['subst']}
         cond.update({('k%d' % i): _real(q) for i, q in enumerate(a['ks'])})
         expect = all(_book(q)[2] == rate_dims(sum(r['reac'].values())) for r, q in zip(c['rxns'], a['ks']))
+        before = _snap(cond)
         try:
             res = extra['validate'](cond)
             got = True
@@ -922,9 +953,8 @@ class C10(Property):
         if got != expect:
             return 'validate %s a system whose constants have dimensions %s for orders %s' % (
                 'accepted' if got else 'refused', [_book(q)[2] for q in a['ks']], [sum(r['reac'].values()) for r in c['rxns']])
-        zero_order = any(sum(r['reac'].values()) == 0 for r in c['rxns'])
-        if got and zero_order and not self._listed(VALIDATE_ALIAS_KEY):
-            return None      # defect region (see notes/C10.md, finding 1): reported only once the finding is listed as open
+        if _snap(cond) != before:
+            return 'validate modified the caller\'s conditions: before %r, after %r' % (before, _snap(cond))
         if got:
             hand = self._hand_rhs(c, a)
             unit_sc = self._scales(c, a)
@@ -933,19 +963,40 @@ class C10(Property):
                 if s in res['rates']:
                     v, d = _read(res['rates'][s])
                     if d != _dadd(CONC, TIME, -1) or not _close(v, w, sc * conv):
-                        return 'validate: %srate of %s = %r %s, by hand %r mol m-3 s-1' % (
-                            '[zero-order constant aliased] ' if zero_order else '', s, v, d, float(w))
+                        return 'validate: rate of %s = %r %s, by hand %r mol m-3 s-1' % (s, v, d, float(w))
+            return self._oracle_unit_aware_solve(c, a, extra, hand, [sc * conv for sc in unit_sc])
         return None
 
-    def _listed(self, key):
-        from lib.framework import load_known
-        if not hasattr(self, '_known'):
-            self._known = load_known()[0]
-        return (self.pid, key) in self._known
-
-    def known_key(self, c, failure):
-        if c.get('kind') == 'validate' and isinstance(failure, str) and '[zero-order constant aliased]' in failure:
-            return VALIDATE_ALIAS_KEY
+    def _oracle_unit_aware_solve(self, c, a, extra, hand, scales):
+        """`unit_aware_solve` over a time so short that y(t) - y(0) = rhs * t to first order: the caller's objects must be
+        unchanged afterwards and the change of every concentration must be the hand-computed rate times t (5 %: the
+        integrator is third party; a wrong constant shows as a factor)"""
+        from collections import defaultdict
+        cu = _cu()
+        u = cu.default_units
+        c_si = [float(_si(a['c0'][s])) for s in c['subst']]
+        tau = min((cs / sc for cs, sc in zip(c_si, scales) if sc > 0 and cs > 0), default=1.0)
+        t_si = 1e-6 * tau
+        t = t_si * u.s
+        c0 = defaultdict(lambda: 0 * u.molar, {s: _real(a['c0'][s]) for s in c['subst']})
+        p = {('k%d' % i): _real(q) for i, q in enumerate(a['ks'])}
+        before = _snap([t, dict(c0), p])
+        try:
+            result, _ = extra['unit_aware_solve'](t, c0, p, integrator='scipy', atol=1e-300, rtol=1e-12)
+        except Exception as e:
+            result = None        # the integrator is third party
+        if _snap([t, dict(c0), p]) != before:
+            return 'unit_aware_solve modified the caller\'s arguments: before %r, after %r' % (before, _snap([t, dict(c0), p]))
+        if result is None or not getattr(result, 'info', {}).get('success', False):
+            return None
+        try:
+            yend = [float(v) for v in result.yout[-1].simplified.magnitude]
+        except Exception as e:
+            return 'unit_aware_solve result is not a concentration array: %s' % exc_name(e)
+        for s, y1, y0, w, sc in zip(c['subst'], yend, c_si, hand, scales):
+            if abs((y1 - y0) - float(w) * t_si) > 0.05 * sc * t_si + 1e-9 * abs(y0):
+                return ('unit_aware_solve over %r s: [%s] changed by %r mol m-3, hand-computed rate x t = %r'
+                        % (t_si, s, y1 - y0, float(w) * t_si))
         return None
 
     def nontrivial(self, c):
